@@ -274,7 +274,7 @@ def template_cond(draw, ctx: Ctx):
     if n >= 2:
         T += ["and_right_diffvar_or", "and_two_ors", "or_overlap", "subset_only", "and_independent"]
     if n >= 3:
-        T += ["indep_and_or3", "indep_and_or3"]
+        T += ["indep_and_or3", "indep_and_or3", "indep_and_join3"]
     T += ["same_var_or", "not_over_and", "not_over_or", "and_of_ors_samevar"] if cfg.allow_not else \
         ["same_var_or", "and_of_ors_samevar"]
     t = draw(st.sampled_from(T))
@@ -291,6 +291,15 @@ def template_cond(draw, ctx: Ctx):
     if t == "and_independent":
         x, y = (draw(st.permutations(list(range(n)))))[:2]
         return ["and", f(), [leaf(draw, ctx, [x]), leaf(draw, ctx, [y])]]
+    if t == "indep_and_join3":
+        # an unrelated conjunct passing several bindings to a relation between the two other variables
+        z, x, y = (draw(st.permutations(list(range(n)))))[:3]
+        rel = draw(st.sampled_from([["cmp", "!=", ["var", x], ["var", y]], ["cmp", "==", ["attr", ["var", x], "b"], ["attr", ["var", y], "b"]],
+                                    leaf(draw, ctx, [x, y])]))
+        parts = [leaf(draw, ctx, [z]), rel]
+        if draw(st.booleans()):
+            parts.reverse()
+        return ["and", f(), parts]
     if t == "indep_and_or3":
         # L over one variable, R a disjunction over two OTHER variables: L passes several bindings through to R
         z, x, y = (draw(st.permutations(list(range(n)))))[:3]
